@@ -107,14 +107,17 @@ structure Inv (envOf : Nat → Env) (hasCb : Bool) (input : List Nat) (w : WP) :
   sub : ∀ q ∈ w.gone, q ∈ input
   rc : ∀ q ∈ w.gone, ∃ v, (w.objs q).returncode = some v ∧ (w.objs q).exitcode = some v
   cache : ∀ q v, (w.objs q).exitcode = some v → RightVal (envOf q) v ∧ endedBy (envOf q) w.now
+  -- what every callback invocation saw: the process already in `gone`, `returncode` already set, to a true value
+  seen : ∀ e ∈ w.cbSeen, e.inGone = true ∧ ∃ v, e.rc = some v ∧ RightVal (envOf e.pid) v
+  seenPids : w.cbSeen.map (·.pid) = w.cbLog
 
 theorem inv_markGone {envOf : Nat → Env} {hasCb : Bool} {input : List Nat} {w : WP} {pid : Nat}
     {v : Option Int} (hi : Inv envOf hasCb input w) (hn : pid ∉ w.gone) (hin : pid ∈ input)
     (hv : (w.objs pid).exitcode = some v) :
     Inv envOf hasCb input (markGone hasCb w pid v) ∧ (markGone hasCb w pid v).gone = w.gone ++ [pid] ∧
     (markGone hasCb w pid v).now = w.now := by
-  have hg' : (markGone hasCb w pid v).gone = w.gone ++ [pid] := by simp [markGone, hn]
-  refine ⟨⟨?_, ?_, ?_, ?_, ?_⟩, hg', rfl⟩
+  have hg' : (markGone hasCb w pid v).gone = w.gone ++ [pid] := by simp [markGone_eq, hn]
+  refine ⟨⟨?_, ?_, ?_, ?_, ?_, ?_, ?_⟩, hg', by rw [markGone_eq]⟩
   · rw [hg']
     rw [List.nodup_append]
     refine ⟨hi.nodup, by simp, ?_⟩
@@ -122,7 +125,7 @@ theorem inv_markGone {envOf : Nat → Env} {hasCb : Bool} {input : List Nat} {w 
     simp at hb; subst hb
     intro e; subst e; exact hn ha
   · rw [hg']
-    simp only [markGone]
+    simp only [markGone_eq]
     rw [hi.cb]
     cases hasCb <;> simp
   · intro q hq
@@ -136,16 +139,33 @@ theorem inv_markGone {envOf : Nat → Env} {hasCb : Bool} {input : List Nat} {w 
     simp at hq
     by_cases e : q = pid
     · subst e
-      exact ⟨v, by simp [markGone], by simp [markGone, hv]⟩
+      exact ⟨v, by simp [markGone_eq], by simp [markGone_eq, hv]⟩
     · have hq' : q ∈ w.gone := by rcases hq with h | h; exact h; exact absurd h e
       obtain ⟨v', h1, h2⟩ := hi.rc q hq'
-      exact ⟨v', by simp [markGone, e, h1], by simp [markGone, e, h2]⟩
+      exact ⟨v', by simp [markGone_eq, e, h1], by simp [markGone_eq, e, h2]⟩
   · intro q v' hq
     have : (w.objs q).exitcode = some v' := by
       by_cases e : q = pid
-      · subst e; simpa [markGone] using hq
-      · simpa [markGone, e] using hq
+      · subst e; simpa [markGone_eq] using hq
+      · simpa [markGone_eq, e] using hq
+    have hnow : (markGone hasCb w pid v).now = w.now := by rw [markGone_eq]
+    rw [hnow]
     exact hi.cache q v' this
+  · intro e he
+    rw [markGone_eq] at he
+    simp only at he
+    cases hasCb with
+    | false => simp only [Bool.false_eq_true, if_false] at he; exact hi.seen e he
+    | true =>
+      simp only [if_true, List.mem_append, List.mem_singleton] at he
+      rcases he with he | rfl
+      · exact hi.seen e he
+      · exact ⟨rfl, v, rfl, (hi.cache pid v hv).1⟩
+  · rw [markGone_eq]
+    simp only
+    cases hasCb with
+    | false => simpa using hi.seenPids
+    | true => simp [hi.seenPids]
 
 /-- the state right after `proc.wait(t)` returned or raised, before any `gone.add` -/
 def afterWait (w : WP) (r : WaitRes) (pid : Nat) (t : Rat) : WP :=
@@ -181,7 +201,7 @@ theorem checkGone_step (w w' : WP) (pid : Nat) (t : Rat) (ht : 0 ≤ t)
   rw [checkGone_eq c envOf hasCb fuel w pid t r hr] at h
   simp only at f7 f8
   have hw1 : Inv envOf hasCb input (afterWait w r pid t) := by
-    refine ⟨hi.nodup, hi.cb, hi.sub, ?_, ?_⟩
+    refine ⟨hi.nodup, hi.cb, hi.sub, ?_, ?_, hi.seen, hi.seenPids⟩
     · intro q hq
       have e : q ≠ pid := fun e => hn (e ▸ hq)
       obtain ⟨v, h1, h2⟩ := hi.rc q hq
@@ -418,7 +438,7 @@ theorem lastAttempt_inv (alive : List Nat) (w w' : WP) (alive' : List Nat)
 
 /-- a fresh call: nothing gone yet, no callback made, every cached exit code is a true one -/
 def Fresh (w : WP) : Prop :=
-  w.gone = [] ∧ w.cbLog = [] ∧
+  w.gone = [] ∧ w.cbLog = [] ∧ w.cbSeen = [] ∧
   ∀ q v, (w.objs q).exitcode = some v → RightVal (envOf q) v ∧ endedBy (envOf q) w.now
 
 /-- everything `wait_procs` guarantees about its final state, in one statement -/
@@ -428,9 +448,10 @@ theorem waitProcs_inv (procs : List Nat) (timeout : Option Rat) (w w' : WP) (ali
     LInv envOf hasCb (dedup procs) w' alive' ∧ w.now ≤ w'.now ∧
     (∀ τ, timeout = some τ → w'.now < w.now + τ + Spec.cap) ∧
     (timeout = none → alive' = []) := by
-  obtain ⟨hg0, hcb0, hc0⟩ := hf
+  obtain ⟨hg0, hcb0, hs0, hc0⟩ := hf
   have hl0 : LInv envOf hasCb (dedup procs) w (dedup procs) := by
-    refine ⟨⟨by rw [hg0]; simp, by rw [hcb0, hg0]; simp, by rw [hg0]; simp, by rw [hg0]; simp, hc0⟩,
+    refine ⟨⟨by rw [hg0]; simp, by rw [hcb0, hg0]; simp, by rw [hg0]; simp, by rw [hg0]; simp, hc0,
+        by rw [hs0]; simp, by rw [hs0, hcb0]; simp⟩,
       nodup_dedup procs, fun q => by rw [hg0]; simp⟩
   unfold waitProcs at h
   by_cases hneg : negative timeout = true
